@@ -254,6 +254,9 @@ class Ctx:
         args = ["go", "build", "-modfile=" + modfile, "-tags", "verif", "-o", out]
         if race:
             args.append("-race")
+        if os.environ.get("VERIF_COVER"):
+            # opt-in measurement (bin/coverage): statement coverage of the library under the harness
+            args += ["-cover", "-coverpkg=all"]
         args.append("./cmd/" + cmd)
         t0 = time.time()
         p = subprocess.run(args, cwd=HARNESS, env=env, capture_output=True, text=True)
@@ -268,6 +271,10 @@ class Ctx:
         e.update(GOENV)
         e["VERIF_SEED"] = str(self.seed)
         e["VERIF_TIER"] = self.tier
+        if os.environ.get("VERIF_COVER"):
+            d = os.path.join(os.environ["VERIF_COVER"], self.prop)
+            os.makedirs(d, exist_ok=True)
+            e["GOCOVERDIR"] = d
         if env:
             e.update(env)
         t0 = time.time()
